@@ -20,6 +20,8 @@ import BertE.Drv.C19
 import BertE.Drv.C20
 import BertE.Drv.Git
 import BertE.Drv.Eval
+import BertE.Drv.QValidate
+import BertE.Drv.Select
 /- One line in, one line out. The first word selects the model entry point. Core Lean only
    (nothing reachable from here imports Mathlib, so this links as a `lean_exe`). -/
 
@@ -46,7 +48,9 @@ def dispatch (line : String) : String :=
   | "C19" :: args => BertE.Drv.C19.handle args
   | "C20" :: args => BertE.Drv.C20.handle args
   | "GIT" :: args => BertE.Drv.Git.handle args
+  | "QV" :: args => BertE.Drv.QValidate.handle args
   | "EV" :: args => BertE.Drv.Eval.handle args
+  | "SEL" :: args => BertE.Drv.Select.handle args
   | _ => "bad-op"
 
 partial def loop (h : IO.FS.Stream) (out : IO.FS.Stream) : IO Unit := do
